@@ -74,6 +74,16 @@ def run_shard(spec, acc):
             unused = next((v for v in (full, full - 1, 0, 1, 2, rng.randint(0, full)) if v not in vals), None)
             own = next((f.match for f in d.match_fields if (f.off, f.bits) == (off, bits)), None)
             cand = ([own] if own is not None else []) + sorted(vals - {own}) + ([unused] if unused is not None else [])
+            # other codes that carry the same NAME in the field's lookup table (a manufacturer listed under two codes): a
+            # dispatcher that compares names instead of numbers would take them for the match value
+            mf = next((f for x in ds for f in x.match_fields if (f.off, f.bits) == (off, bits) and getattr(f, "lookup", None)), None)
+            if mf is not None and mf.lookup in dbx.lookups:
+                tab = dbx.lookups[mf.lookup]
+                names = {tab.get(v) for v in vals if tab.get(v) is not None}
+                alias = sorted(c for c, nm in tab.items() if nm in names and c not in vals and 0 <= c <= full)
+                cand += alias[:6]
+                if alias:
+                    acc.count("alias_codes_with_the_same_lookup_name", len(alias[:6]))
             choices.append(cand)
         total = 1
         for c in choices:
